@@ -40,6 +40,10 @@ def main():
         rc, out = sh(["/venv/bin/python", os.path.abspath(a.demo)], env=env, cwd="/tmp", timeout=600)
         rec["demo_clean_rc"] = rc
         rc, out = sh(["git", "-C", tree, "apply", os.path.abspath(a.patch)])
+        if rc != 0:
+            # the patch was written against an earlier commit: merge it
+            rc, out = sh(["git", "-C", tree, "apply", "--3way", os.path.abspath(a.patch)])
+            rec["applied_3way"] = True
         rec["apply_rc"] = rc
         if rc != 0:
             rec["apply_out"] = out[-500:]
